@@ -370,9 +370,16 @@ theorem pyth_owner_checked :
     discriminator-checking loader after its key check, test its staleness next, and only then load the price -/
 theorem venue_fresh :
     ∀ a ∈ arms, a.2.any (fun | .venueLoader _ => true | _ => false) = true →
-      (match at? a.2 (.keyCheck 1), at? a.2 (.venueLoader 1), at? a.2 .venueStaleCheck with
+      (match at? a.2 (.keyCheck 1), at? a.2 (.venueLoader 1), a.2.findIdx? (fun | .venueStaleCheck _ => true | _ => false) with
        | some k, some l, some s => decide (k < l ∧ l < s ∧ s < firstLoad a.2)
        | _, _, _ => false) = true := by decide
+
+/-- … and the staleness test is made against the right clock: Kamino reserves against the current slot, Drift spot
+    markets against the current unix time, Solend reserves against the Clock sysvar (slot) read by the callee -/
+theorem venue_clock :
+    (arms.filterMap fun a => (a.2.findSome? fun | .venueStaleCheck c => some c | _ => none).map fun c => (a.1, c)) =
+      [(.sDriftPythPull, .unixTs), (.sDriftSwitchboardPull, .unixTs), (.sKaminoPythPush, .slot), (.sKaminoSwitchboardPull, .slot),
+       (.sSolendPythPull, .sysvar), (.sSolendSwitchboardPull, .sysvar)] := by decide
 
 /-- the venue-backed arms are exactly the six Kamino / Drift / Solend ones -/
 theorem venue_arms :
